@@ -183,10 +183,54 @@ func jsonNode(t *rapid.T, depth int, budget *int, lim Limits) *refenc.JNode {
 	return n
 }
 
+// jsonWide draws a container with hundreds to thousands of scalar members taken from a few drawn
+// templates (their text is much longer than their binary form for opaque temporals and decimals),
+// optionally below one or two enclosing containers.
+func jsonWide(t *rapid.T, lim Limits) *refenc.JNode {
+	nt := rapid.IntRange(1, 3).Draw(t, "jwide_templates")
+	var tpl []*refenc.JNode
+	for i := 0; i < nt; i++ {
+		s := jsonScalar(t, lim)
+		if s.K == refenc.JString && s.S.N > 64 {
+			s.S.N = 64
+		}
+		tpl = append(tpl, s)
+	}
+	sizes := []int{90, 130, 300, 700, 1500, 3000}
+	if lim.SmallJSON {
+		sizes = []int{90, 130, 300}
+	}
+	n := rapid.SampledFrom(sizes).Draw(t, "jwide_n")
+	c := &refenc.JNode{K: refenc.JArray}
+	if rapid.IntRange(0, 2).Draw(t, "jwide_obj") == 0 {
+		c.K = refenc.JObject
+	}
+	for i := 0; i < n; i++ {
+		c.Kids = append(c.Kids, tpl[i%nt])
+		if c.K == refenc.JObject {
+			c.Keys = append(c.Keys, fmt.Sprintf("k%04d", i))
+		}
+	}
+	if c.K == refenc.JObject {
+		refenc.SortKeys(c.Keys, c.Kids)
+	}
+	for d := rapid.IntRange(0, 2).Draw(t, "jwide_depth"); d > 0; d-- {
+		if rapid.Bool().Draw(t, "jwide_wrap_obj") {
+			c = &refenc.JNode{K: refenc.JObject, Keys: []string{"w"}, Kids: []*refenc.JNode{c}}
+		} else {
+			c = &refenc.JNode{K: refenc.JArray, Kids: []*refenc.JNode{c}}
+		}
+	}
+	return c
+}
+
 // JSONDoc draws a JSON document (depth <= 6, fan-out <= 40, <= ~150 nodes).  A
 // fraction of container roots is pushed into the large storage format, either
 // by a >= 64 KiB child or by forcing the format bit.
 func JSONDoc(t *rapid.T, lim Limits) *refenc.JNode {
+	if rapid.IntRange(0, 19).Draw(t, "jwide") == 0 {
+		return jsonWide(t, lim)
+	}
 	budget := rapid.IntRange(1, 150).Draw(t, "jbudget")
 	root := jsonNode(t, 0, &budget, lim)
 	if root.K == refenc.JObject || root.K == refenc.JArray {
